@@ -125,8 +125,18 @@ func orderAndCopies(e *Env) {
 		}
 	}
 	sent2 := false
-	s := startSession(e, ClientOpts{Nick: "me", Flood: true, Track: g.Pct(30), PingFreq: []time.Duration{0, 3 * time.Second}[g.Intn(2)]},
+	// "however long handlers take": the dial/keep-alive timeout is a tuning knob
+	// that must not bound handler time, so it is varied and a few invocations
+	// outlast it several times over
+	timeout := []time.Duration{0, 0, 300 * time.Millisecond, 2 * time.Second, 20 * time.Second}[g.Intn(5)]
+	effTimeout := timeout
+	if effTimeout == 0 {
+		effTimeout = 60 * time.Second
+	}
+	longLeft := g.W(6, 2, 2) // invocations that sleep 1.2-3 x the timeout
+	s := startSession(e, ClientOpts{Nick: "me", Flood: true, Track: g.Pct(30), PingFreq: []time.Duration{0, 3 * time.Second}[g.Intn(2)], Timeout: timeout},
 		func(l *simnet.Link) { l.ChunkMode = g.Intn(4); l.Window = []int{0, 0, 0, 16, 64, 300}[g.Intn(6)] })
+	longBudget := time.Duration(longLeft) * 3 * effTimeout
 	// replace the default scripted server: registration, then the stream with
 	// the welcome somewhere inside it
 	causeBegun := false
@@ -250,6 +260,11 @@ func orderAndCopies(e *Env) {
 				if dur > 0 {
 					simrt.Sleep(dur)
 				}
+				if longLeft > 0 && !bg && g.S.Choose(4) == 0 {
+					longLeft--
+					e.S.Count("probe.handler-outlasts-config-timeout")
+					simrt.Sleep(effTimeout * time.Duration(12+g.S.Choose(19)) / 10)
+				}
 				if mine != nil && c15 {
 					e.Check()
 					if !reflect.DeepEqual(l.Args, mine.Args) || !reflect.DeepEqual(l.Tags, mine.Tags) {
@@ -275,6 +290,11 @@ func orderAndCopies(e *Env) {
 			for i := g.S.Choose(4) * 5; i > 0; i-- {
 				simrt.Sleep(0)
 			}
+			if longLeft > 0 && g.S.Choose(3) == 0 {
+				longLeft--
+				e.S.Count("probe.handler-outlasts-config-timeout")
+				simrt.Sleep(effTimeout * time.Duration(12+g.S.Choose(19)) / 10)
+			}
 			r.exit = e.S.Stamp()
 			connected = append(connected, r)
 		})
@@ -296,13 +316,13 @@ func orderAndCopies(e *Env) {
 	e.Notef("%d lines over %v, %d handlers, welcome at %d, early end=%s", n, verbs, nh, welcomeAt, []string{"none", "Close from a task", "server EOF part-way"}[early])
 	// expected fg invocations per line: handlers registered for its verb
 	simrt.BlockFor("dispatch", "stream sent or ended", 50*time.Hour, func() bool { return allSent || causeBegun })
-	simrt.Settle(time.Duration(n)*3*time.Second + 30*time.Second)
+	simrt.Settle(time.Duration(n)*3*time.Second + 30*time.Second + longBudget)
 	if early == 0 {
 		causeBegun = true
 		s.c.Close()
 		simrt.Settle(10 * time.Second)
 	} else {
-		simrt.BlockFor("dispatch", "DISCONNECTED", time.Hour, func() bool { return len(discEnter) > 0 })
+		simrt.BlockFor("dispatch", "DISCONNECTED", time.Hour+longBudget, func() bool { return len(discEnter) > 0 })
 		simrt.Settle(10 * time.Second)
 		if second && len(discEnter) > 0 {
 			e.S.Count("fault.reconnect-after-early-end")
@@ -311,7 +331,7 @@ func orderAndCopies(e *Env) {
 				return
 			}
 			simrt.BlockFor("dispatch", "second stream sent", time.Hour, func() bool { return sent2 })
-			simrt.Settle(time.Duration(n2)*3*time.Second + 30*time.Second)
+			simrt.Settle(time.Duration(n2)*3*time.Second + 30*time.Second + longBudget)
 			s.c.Close()
 			simrt.Settle(10 * time.Second)
 		}
